@@ -138,6 +138,8 @@ def random_step(rng, pool):
         tbl = L if side == 'l' else R
         call = {'api': 'profile', 'ltable': tbl,
                 'profile_attrs': rng.choice([None, [side + 'attr'], [side + 'id', side + 'attr']])}
+        if call['profile_attrs'] is None and rng.random() < 0.6:
+            del call['profile_attrs']          # omit the argument
         step['tables'] = {'ltable': (side, li if side == 'l' else ri)}
     else:
         side = rng.choice('lr')
